@@ -34,7 +34,7 @@ def obligations(tier):
             cov = ["nil-pointer"] if nil else ["first"]
             if not nil and t in (0, 1, 8, 9, 10, 11, 12):
                 cov.append("fell-through")
-            L.append(ob("morder/t=%d/p=%d" % (t, p), ".", "VerifC17MOrder", [t, p], covers=cov, max_seconds=600, max_paths=200))
+            L.append(ob("morder/t=%d/p=%d" % (t, p), ".", "VerifC17MOrder", [t, p], covers=cov, max_seconds=600, max_paths=200, sample=2))
     # ---- marshal: scripted MarshalJSONTo
     MTO_COV = ["one-value", "zero-values", "two-values", "left-open", "user-error", "skip", "unsupported-after-write"]
     if q:
@@ -78,7 +78,7 @@ def obligations(tier):
     # ---- unmarshal: order
     for t in range(6):
         for p in range(11):
-            L.append(ob("uorder/t=%d/p=%d" % (t, p), ".", "VerifC17UOrder", [t, p], covers=["first"] + (["fell-through"] if t in (0, 3, 4) else []), max_seconds=600, max_paths=200))
+            L.append(ob("uorder/t=%d/p=%d" % (t, p), ".", "VerifC17UOrder", [t, p], covers=["first"] + (["fell-through"] if t in (0, 3, 4) else []), max_seconds=600, max_paths=200, sample=2))
     # ---- unmarshal: scripted UnmarshalJSONFrom
     UF_COV = ["one-value", "zero-values", "user-error", "skip", "unsupported-after-read"]
     UF = [(0, 0, 2, 4, "7"), (3, 1, 3, 4, "[7,[]]"), (4, 2, 3, 4, '{"a":7}'), (0, 3, 3, 4, '"s"'), (3, 4, 2, 4, "7"), (4, 7, 2, 4, '"7"'), (0, 1, 4, 3, "[]"), (3, 11, 5, 2, "7")]
